@@ -10,7 +10,8 @@ run():    seeded random REAL `IRSchema` objects -> the REAL `DataclassGenerator(
           with `ast`; text slicing when the emitted module is not valid Python) / the text of every field line / the
           value type of a JSON wrapper.  Also `dcEnumDefaultMember` vs `str.upper().replace().replace()` and
           `dcSortKeys` vs `sorted(key=...)`.
-oracle(): the properties themselves on the real generator, no Lean: defaults last (1), one field per property (2),
+oracle(): the properties themselves on the real generator, no Lean: defaults last (1), no default calls a name an earlier
+          field rebound (1b: a property `field` before a `field(default_factory=…)` default), one field per property (2),
           required iff no default (3), `ast.literal_eval` of every scalar default (4), the member named by an enum default
           exists in the enum the REAL `EnumGenerator` emits and carries the default's value (5), output independent of the
           order of `properties` (6), `generate` does not raise on a well-formed schema (7).
@@ -367,7 +368,7 @@ def _model_view(ans):
 KEY_POOL = [
     "userId", "user_id", "user-id", "UserID", "user id", "class", "def", "from", "1abc", "2x", "10", "9", "données",
     "id", "name", "Name", "NAME", "items", "type", "a", "b", "B", "x-y", "x_y", "xY",
-    "_private", "self", "field", "zeta", "Alpha", "alpha", "émoji😀", "HTTPCode", "{id}", "a.b",
+    "_private", "self", "field", "Field", "field_", "zeta", "Alpha", "alpha", "émoji😀", "HTTPCode", "{id}", "a.b",
     "None", "none", "list",
 ]
 KEY_RARE = ["default_factory", "defaultFactory", "日本", "_", "__", ""]      # crash the generator / give an empty identifier
@@ -715,6 +716,21 @@ def _eval_case(case: dict) -> list:
         elif seen_default:
             fail("dc-default-before-nondefault", body, "fields without default first")
             break
+    # (1b) the class body runs top to bottom and `name: T = default` rebinds `name`: no default may call a name an earlier field
+    #      with a default has rebound (F5 repaired: a property called `field` is emitted as `field_`)
+    rebound: set = set()
+    for n in body:
+        f = byname.get(n)
+        if f is None:
+            continue
+        d_ = f[2]
+        if d_ is not None:
+            m_ = re.match(r"([A-Za-z_][A-Za-z0-9_]*)\(", d_)
+            if m_ and m_.group(1) in rebound:
+                fail("dc-field-shadows-default-callee", {"body": body, "field": n, "default_expr": d_},
+                     f"`{m_.group(1)}` still names what the module imported")
+                break
+            rebound.add(n)
     # (2) one field per property
     names = [f[0] for f in fields]
     if (sorted(body) != sorted(names) or len(set(names)) != len(names) or sorted(k for k, _ in mappings) != sorted(props)
